@@ -182,6 +182,10 @@ def classify_sanitizer(text):
     m = re.search(r"WARNING: ThreadSanitizer: ([\w -]+?) \(", text)
     if m:
         return ("tsan", m.group(1).replace(" ", "-"), site)
+    if "ThreadSanitizer: can't find longjmp buf" in text:
+        # the runtime keeps, per thread, the jump buffers that thread filled with setjmp; it stops the process when a
+        # thread longjmps to a buffer it never filled (another thread's, or one whose frame is gone)
+        return ("tsan", "longjmp-to-a-buffer-this-thread-never-set", site)
     return None
 
 
